@@ -116,7 +116,7 @@ def prop_shift(case):
 def degree_case(draw):
     gc = draw(gen.graph_case(1, 12, labels=('int', 'str', 'tuple'), weighted=False))
     return {'gc': gc, 'x': draw(st.one_of(st.sampled_from([1.0, 0.5, 0.25]), st.floats(0.05, 1.0, allow_nan=False))),
-            'T': draw(st.sampled_from([0.2, 0.5, 1.0])), 'tau': draw(gen.pos_rates), 'gamma': draw(gen.pos_rates)}
+            'T': draw(st.sampled_from([0.2, 0.5, 1.0])), 'tau': draw(gen.pos_rates), 'gamma': draw(gen.pos_rates), 'rewire': draw(st.integers(0, 40))}
 
 
 def prop_degree(case):
@@ -181,6 +181,29 @@ def prop_degree(case):
             r0b = EoN.estimate_R0(G, tau=tau, gamma=gamma)
             if abs(r0b - tau / (tau + gamma) * k2 / k1) > 1e-10:
                 fails.append(Failure('estimate_R0:tau-gamma', 'estimate_R0(tau=%r,gamma=%r)=%r, expected %r' % (tau, gamma, r0b, tau / (tau + gamma) * k2 / k1)))
+        # history: the same graph object queried again after it was rewired (same numbers of nodes and edges, other degrees)
+        und = [(u, v) for u in nodes for v in adj[u] if repr(u) < repr(v)]
+        non = [(u, v) for i, u in enumerate(nodes) for v in nodes[i + 1:] if v not in adj[u]]
+        if und and non:
+            k = case.get('rewire', 0)
+            a, b = und[k % len(und)]
+            c_, d_ = non[k % len(non)]
+            G.remove_edge(a, b)
+            G.add_edge(c_, d_)
+            degs2 = [G.degree(u) for u in nodes]
+            hist2 = {}
+            for d in degs2:
+                hist2[d] = hist2.get(d, 0) + 1
+            Pk2 = EoN.get_Pk(G)
+            if any(abs(Pk2.get(k_, 0) - hist2[k_] / float(N)) > 1e-12 for k_ in hist2) or abs(sum(Pk2.values()) - 1) > 1e-12 or \
+                    any(k_ not in hist2 and v != 0 for k_, v in Pk2.items()):
+                fails.append(Failure('get_Pk:stale-after-rewiring', 'after moving edge %r to %r on the same graph object get_Pk = %r; degree histogram/N = %r'
+                                     % ((a, b), (c_, d_), dict(Pk2), {k_: v / float(N) for k_, v in hist2.items()})))
+            k1b = sum(degs2) / float(N)
+            k2b = sum(d * (d - 1) for d in degs2) / float(N)
+            if k1b > 0 and abs(EoN.estimate_R0(G, transmissibility=case['T']) - case['T'] * k2b / k1b) > 1e-10:
+                fails.append(Failure('estimate_R0:stale-after-rewiring', 'estimate_R0 after rewiring = %r, T<k^2-k>/<k> = %r'
+                                     % (EoN.estimate_R0(G, transmissibility=case['T']), case['T'] * k2b / k1b)))
     except Exception as e:
         fails.append(Failure('degree-helpers:exception:%s' % exc_signature(e), 'raised %r' % (e,)))
     return Result(fails, nontrivial=len(set(degs)) >= 2, classes=['>=2-degrees'] if len(set(degs)) >= 2 else ['regular'])
